@@ -743,7 +743,8 @@ def _physical_twins(model):
                 continue
             for H in [K] + [h for h in model.subclasses(K, strict=True)]:
                 terminal = H.is_sub(bw) or any((H.provider(a) is not None and H.provider(a).cls not in (base, core)) for a in ("_layer", "_task"))
-                own_lower = H.provider("_lower") is not None and H.provider("_lower").cls.is_sub(K)
+                lp = H.provider("_lower")
+                own_lower = lp is not None and lp.cls.is_sub(K) and lp.kind != "attr" and not all(isinstance(r, ast.Return) and (r.value is None or (isinstance(r.value, ast.Constant) and r.value.value is None)) for r in lp.node.body if not isinstance(r, ast.Expr))
                 if terminal and not own_lower and (L, H) not in out:
                     out.append((L, H))
     return out
